@@ -344,6 +344,39 @@ def translate(repo):
           "Definition src_event_type_fmt : list N * list N := (%s, %s)." % (coq_bytes(ev_type[0]), coq_bytes(ev_type[1])),
           "Definition src_event_data_fmt : list N * list N := (%s, %s)." % (coq_bytes(ev_data[0]), coq_bytes(ev_data[1])), ""]
 
+    # ---- src/http_conn.rs: the leading state guards of read_request / write_http_continue / write_response
+    guards = {}
+    try:
+        hsrc = read(repo, "src/http_conn.rs")
+        VAR = {"WriteState::None": "VNone", "WriteState::Response": "VResponse", "WriteState::Shutdown": "VShutdown",
+               "ReadState::Head": "VHead", "ReadState::Body{..}": "VBody", "ReadState::Shutdown": "VShutdown"}
+        for fn in ("read_request", "write_http_continue", "write_response"):
+            body = fn_body(hsrc, "pub async fn %s" % fn).strip()
+            tabs = []
+            while True:
+                m = re.match(r"match\s+self\.(write_state|read_state)\s*\{(.*?)\n\s*\}", body, re.S)
+                if not m:
+                    break
+                arms = []
+                for arm in [a.strip() for a in m.group(2).split("\n") if a.strip()]:
+                    am = re.fullmatch(r"((?:Write|Read)State::\w+(?:\s*\{\s*\.\.\s*\})?)\s*=>\s*(\{\}|return\s+Err\(HttpError::(\w+)\)),?", arm)
+                    if not am:
+                        raise ValueError("%s: guard arm %r" % (fn, arm))
+                    v = re.sub(r"\s+", "", am.group(1))
+                    arms.append("(%s, %s)" % (VAR[v], "Some %s" % coq_bytes(am.group(3)) if am.group(3) else "None"))
+                tabs.append("(%s, [%s])" % ("FWriteState" if m.group(1) == "write_state" else "FReadState", "; ".join(arms)))
+                body = body[m.end():].strip()
+            if not tabs:
+                raise ValueError("%s: no leading guard" % fn)
+            guards[fn] = tabs
+    except Exception as e:   # noqa
+        P.append("src/http_conn.rs state guards: cannot translate (%s)" % e)
+        guards = {"read_request": [], "write_http_continue": [], "write_response": []}
+    L += ["(* src/http_conn.rs: the leading state guards of three HttpConn methods, in source order *)"]
+    for fn in ("read_request", "write_http_continue", "write_response"):
+        L.append("Definition src_guards_%s : list guard_table := [\n  %s]." % (fn, ";\n  ".join(guards[fn])))
+    L.append("")
+
     # ---- src/request.rs: read_http_request -- consumed names, literals, the two decision tables
     rq = dict(names=[], te=[], body=[])
     try:
@@ -459,7 +492,7 @@ def translate(repo):
           "Definition src_request_line_regex : regex :=\n  %s." % rx[0],
           "Definition src_field_line_regex : regex :=\n  %s." % rx[1], ""]
 
-    items = [("chunk", "src/util.rs"), ("event_queue", "src/response.rs"), ("conn_buf", "src/http_conn.rs"),
+    items = [("chunk", "src/util.rs"), ("event_queue", "src/response.rs"), ("conn_buf", "src/http_conn.rs HttpConn.buf"), ("conn_guards", "src/http_conn.rs state guards"),
              ("time", "src/time.rs"), ("content_type", "src/content_type.rs"), ("log_prio", "src/log/logger.rs"),
              ("event_fmt", "src/event.rs"), ("regex", "src/head.rs"), ("cookie", "src/cookie.rs"), ("request", "src/request.rs")]
     L.append("(* what the translator could not read, per item (0 everywhere = the translation is complete) *)")
